@@ -163,10 +163,12 @@ class Sut(object):
             out.append(D(["C06"], "created-webentities", op=what, expected=exp, got=got))
             raise Aborted()
         if exp != got:
-            # same groups but ids not increasing in creation order
-            out.append(D(["C12"], "ids-not-in-creation-order", op=what, expected=exp, got=got))
-            raise Aborted()
-        for (gid, ps), i in zip(groups, ids):
+            # same groups, created in another order inside this one request than the model assumed: the
+            # statements do not fix the order in which one request treats its pages; ids are matched by content
+            self.stats["creation_order_within_request_differs"] += 1
+        by_content = {tuple(sorted(created[i])): i for i in ids}
+        for gid, ps in groups:
+            i = by_content[tuple(sorted(ps))]
             self.idmap[gid] = i
             self.rid[i] = gid
         self.stats["created_groups"] += len(groups)
@@ -466,6 +468,19 @@ class Sut(object):
                                  tb=traceback.format_exc()[-700:], backend=self.cfg["backend"]))
         return out
 
+    def stored_lrus(self, dec=None):
+        """Stem-prefixes actually stored: all the model's, minus those named only by refused requests that
+        the index did not keep (read from the decoder, else from the traversal)."""
+        m = self.m
+        if not m.optional:
+            return set(m.nodes)
+        if dec is not None and not dec.errors:
+            return set(dec.lrus)
+        try:
+            return {l for _, l in self.t.lru_trie.dfs_iter()}
+        except Exception:
+            return set(m.nodes)
+
     def structural(self, dec, out, props, codes):
         for code, text in dec.errors:
             if any(code.startswith(c) for c in codes):
@@ -533,16 +548,18 @@ class Sut(object):
                     break
             if dec is not None:
                 self.structural(dec, out, ["C02"], ("S1", "S2", "S3", "S4", "S5"))
-                if set(dec.lrus) != m.nodes and not dec.errors:
-                    out.append(D(["C02"], "decoder-lrus", missing=sorted(m.nodes - set(dec.lrus))[:5], extra=sorted(set(dec.lrus) - m.nodes)[:5]))
+                if not (m.required_nodes() <= set(dec.lrus) <= m.nodes) and not dec.errors:
+                    out.append(D(["C02"], "decoder-lrus", missing=sorted(m.required_nodes() - set(dec.lrus))[:5], extra=sorted(set(dec.lrus) - m.nodes)[:5]))
             return
         listed = [lru for _, lru in trie.dfs_iter()]
         self.stats["C02_nodes_compared"] += len(m.nodes)
-        if Counter(listed) != Counter(m.nodes):
-            c = Counter(listed)
-            out.append(D(["C02"], "traversal-set", missing=sorted(m.nodes - set(listed))[:5],
+        c = Counter(listed)
+        req = m.required_nodes()
+        if not (req <= set(listed) <= m.nodes) or any(v > 1 for v in c.values()):
+            out.append(D(["C02"], "traversal-set", missing=sorted(req - set(listed))[:5],
                          extra=sorted(set(listed) - m.nodes)[:5], twice=sorted(k for k, v in c.items() if v > 1)[:5]))
-        for p in m.nodes:
+        present = set(listed)
+        for p in sorted(present & m.nodes):
             n = trie.lru_node(p)
             if n is None:
                 out.append(D(["C02"], "lookup-miss", lru=p))
@@ -560,7 +577,10 @@ class Sut(object):
                 if n2 is None or n2.block != n.block:
                     out.append(D(["C02", "C04"], "resolution-walk-lands-elsewhere", lru=p[-40:], block=n.block, got=None if n2 is None else n2.block))
                     break
-        sample = sorted(m.nodes)
+        for p in sorted(m.optional - present)[:10]:
+            if trie.lru_node(p) is not None:
+                out.append(D(["C02"], "found-by-lookup-but-not-by-traversal", lru=p))
+        sample = sorted(present)
         rng.shuffle(sample)
         for p in sample[:25]:
             for q in neighbours(rng, p):
@@ -580,8 +600,8 @@ class Sut(object):
                 break
         if dec is not None:
             self.structural(dec, out, ["C02"], ("S1", "S2", "S3", "S4", "S5"))
-            if set(dec.lrus) != m.nodes and not dec.errors:
-                out.append(D(["C02"], "decoder-lrus", missing=sorted(m.nodes - set(dec.lrus))[:5], extra=sorted(set(dec.lrus) - m.nodes)[:5]))
+            if set(dec.lrus) != present and not dec.errors:
+                out.append(D(["C02"], "decoder-lrus", missing=sorted(present - set(dec.lrus))[:5], extra=sorted(set(dec.lrus) - present)[:5]))
 
     # -- C03
     def audit_C03(self, rng, out, dec, owner, byw):
@@ -873,9 +893,12 @@ class Sut(object):
     def audit_C19(self, rng, out, dec, owner, byw):
         t, m = self.t, self.m
         tl, ll = self.store_lengths()
-        et = m.trie_blocks() * 128
+        stored = self.stored_lrus(dec)
+        et = m.trie_blocks(stored) * 128
         el = (1 + 2 * sum(m.links.values())) * 16
         self.stats["C19_accountings"] += 1
+        if not (m.required_nodes() <= stored <= m.nodes):
+            out.append(D(["C19"], "stored-stem-prefixes", missing=sorted(m.required_nodes() - stored)[:4], invented=sorted(stored - m.nodes)[:4]))
         if tl != et:
             out.append(D(["C19"], "trie-size", got_blocks=tl / 128.0, expected_blocks=et // 128))
         if ll != el:
@@ -888,8 +911,8 @@ class Sut(object):
             checks = [
                 ("nb_pages", mt["lru_trie"]["nb_pages"], len(m.pages)),
                 ("nb_crawled_pages", mt["lru_trie"]["nb_crawled_pages"], sum(m.pages.values())),
-                ("nb_tail_nodes", mt["lru_trie"]["nb_tail_nodes"], m.tail_blocks()),
-                ("nb_nodes", mt["lru_trie"]["nb_nodes"], m.trie_blocks() - 1),
+                ("nb_tail_nodes", mt["lru_trie"]["nb_tail_nodes"], m.tail_blocks(stored)),
+                ("nb_nodes", mt["lru_trie"]["nb_nodes"], m.trie_blocks(stored) - 1),
                 ("nb_links", mt["link_store"]["nb_links"], sum(m.links.values())),
             ]
             for name, g, e in checks:
